@@ -177,6 +177,10 @@ def run_tlc(module, cfg, wd, name, workers=8, timeout=900, simulate=None, depth=
         cmd += ["-seed", str(seed_)]
     if coverage:
         cmd += ["-coverage", "1"]
+    if dfs:
+        # TLC checkpoints every 30 minutes by default and the depth-first queue cannot: a trace validation that long would
+        # die with "StateDeque does not support checkpointing"
+        cmd += ["-checkpoint", "0"]
     cmd += list(extra)
     cmd.append(module if os.path.isabs(module) else os.path.join(SPEC, module + ".tla"))
     env = dict(os.environ)
